@@ -6,6 +6,10 @@ func init() {
 	register("C06", propC06)
 }
 
+const signExtClause = "widening conversions (E17): every nested conversion W(N(x)) of an integer whose WGSL signedness is visible at the site (static type ir.LiteralI32/U32/..., enclosing ScalarSint/ScalarUint guard, Kind of the ScalarValue being built, kind constant returned with it) uses a fixed-width type N of that signedness, so negative i32 values are sign-extended and u32 values zero-extended"
+
+const kindLimitClause = "integer limits (E17): every compile-time constant of limit magnitude (>= 2^31-256) used under a guard that fixes the scalar kind to signed or to unsigned is one of that kind's limits (INT_MIN/INT_MAX/their f32 and f64 neighbours vs UINT_MAX/...), e.g. the unsigned branch of a range check compares with MaxUint32, not MaxInt32"
+
 func propC06(c *Ctx, r *Report) {
 	r.Clauses = append(r.Clauses,
 		"evaluator default discipline (E2): every compile-time evaluator (a value-returning function with a switch over an operator / math-function enum or operator token whose arms compute results) declines — ok=false, nil or an error — on every operator it does not implement; it never returns or falls through to a substituted value")
@@ -24,6 +28,12 @@ func propC06(c *Ctx, r *Report) {
 	c.runOperandOrder(r, "order.ir", inPkgs("ir"))
 	r.floor("order.wgsl", orderFloors["wgsl"])
 	r.floor("order.ir", orderFloors["ir"])
+	r.Clauses = append(r.Clauses, signExtClause)
+	c.runSignExt(r, "conv.signext", inPkgs("wgsl", "ir"))
+	r.floor("conv.signext", 5)
+	r.Clauses = append(r.Clauses, kindLimitClause)
+	c.runKindLimits(r, "range.kindlimit", inPkgs("wgsl", "ir"))
+	r.floor("range.kindlimit", 10)
 	r.Clauses = append(r.Clauses, "numeric literal conversion (E10): no strconv conversion of a WGSL numeric literal in the lowerer discards its error (a literal that is not representable must be an error, not a saturated value)")
 	c.runErrflowFiltered(r, inPkgs("wgsl/internal/lower"), nil, func(callee string) bool { return strings.HasPrefix(callee, "strconv.") }, false)
 }
